@@ -2,23 +2,33 @@ import SynKitModel.Repr
 import SynKitModel.Gml
 import SynKitModel.Match
 import SynKitProofs.ReprLemmas
+import SynKitProofs.ReprHLemmas
 import SynKitProofs.GmlLemmas
+import SynKitProofs.GmlRcLemmas
+import SynKitProofs.GmlIsoLemmas
+import SynKitProofs.GmlReaderLemmas
+import SynKitProofs.GmlReindexLemmas
+import SynKitProofs.GmlSmartLemmas
 /-!
 # C10 — changing representation (SMILES ↔ graph, explicit ↔ implicit hydrogens, ITS ↔ GML) loses nothing
 
-Property theorems only; helper lemmas live in `SynKitProofs/ReprLemmas.lean` and
-`SynKitProofs/GmlLemmas.lean`.  RDKit (SMILES parsing / printing, sanitisation, aromaticity) is
+Property theorems only; helper lemmas live in `SynKitProofs/ReprLemmas.lean`,
+`SynKitProofs/ReprHLemmas.lean`, `SynKitProofs/GmlLemmas.lean` and `SynKitProofs/Gml{Rc,Iso,Reader,Reindex,Smart}Lemmas.lean`.  RDKit (SMILES parsing / printing, sanitisation, aromaticity) is
 external: a molecule is its atom/bond table, and the SMILES clause of the property rests on the
 correspondence check (`harness/props/c10.py`, stream (a)).
 -/
 namespace SynKit
 
 open SynKit.Repr SynKit.Gml in
-/-- C10 at full strength over the model.  Clauses 1–3 and 5 are proved below; clause 4 is proved
-only on the images of `hToExplicit` (`totalH_roundtrip_partial`); clauses 6–8 are proved at the
-level of the written tokens (`gml_roundtrip_partial`) and of the entry points
-(`gml_two_ways_core`, `gml_two_ways_full_is_centre`, `gml_two_ways_centre_partial`), the
-reader's graph assembly and the re-indexing being covered by the correspondence only. -/
+/-- C10 at full strength over the model, as first written down.  Its first nine conjuncts are proved
+(`C10.clauses_1_to_9` at the end of this file; the single theorems are `graphToMol_molToGraph`,
+`hToImplicit_hToExplicit`, `totalH_hToExplicit`, `totalH_hToImplicit`, `label_roundtrip`,
+`gml_roundtrip`, `gml_roundtrip_reindexed`, `gml_two_ways_core`, `gml_two_ways_centre`).  The last
+conjunct (full, non-core export: reaction string vs ITS) is **false as written**
+(`C10.last_clause_needs_molShape`: a product graph with a bond lacking `order` satisfies its
+hypotheses and the two routes differ); it holds, and is proved, for the graphs `rsmi_to_graph`
+delivers (`MolShape`: `gml_two_ways_full`).  `C10.FullStatementMol` is the corrected statement and
+`C10.fullStatementMol` its proof. -/
 def C10.FullStatement : Prop :=
   -- 1. the part of the table the code can carry survives table → graph → table
   (∀ M : Mol, M.WF → graphToMol (molToGraph M) = .ok M.out) ∧
@@ -64,7 +74,8 @@ theorem hToImplicit_hToExplicit (G : LGraph) (hwf : G.WF) (ht : HTyped G) (hg : 
 /-- **C10, hydrogens: count, implicit → explicit.**  No guard at all. -/
 theorem totalH_hToExplicit (G : LGraph) : totalH (hToExplicit G) = totalH G := totalH_hToExplicit' G
 
-/-- **C10, hydrogens: count, explicit → implicit — partial.**  Proved on the graphs
+/-- **C10, hydrogens: count, explicit → implicit — partial** (kept for the record; the full
+statement is `totalH_hToImplicit` below).  Proved on the graphs
 `hToExplicit G` under the guard of the round trip.  Missing: the statement for an arbitrary
 graph with monovalent, count-free hydrogens (`HValence`, fourth clause of `C10.FullStatement`);
 that case is gated by the correspondence (Lean evaluates `totalH` and `HValence` on what the
@@ -72,6 +83,26 @@ implementation returned). -/
 theorem totalH_roundtrip_partial (G : LGraph) (hwf : G.WF) (ht : HTyped G) (hg : NoHeavyBoundH G) :
     totalH (hToImplicit (hToExplicit G)) = totalH (hToExplicit G) := by
   rw [hToImplicit_hToExplicit' G hwf ht hg, totalH_hToExplicit']
+
+/-- **C10, hydrogens: count, explicit → implicit** (fourth clause of `C10.FullStatement`, in full;
+supersedes `totalH_roundtrip_partial`).  On *any* well-formed graph whose hydrogen nodes carry no
+count of their own and have at most one heavy neighbour (`HValence`), `h_to_implicit` keeps the
+total hydrogen count: a hydrogen with a heavy neighbour is removed and that neighbour's count goes
+up by one; a hydrogen with only hydrogen neighbours (or none) stays (F18 repair).  `HTyped` is
+not needed by the proof and kept only to match the clause. -/
+theorem totalH_hToImplicit (G : LGraph) (hwf : G.WF) (ht : HTyped G) (hv : HValence G) :
+    totalH (hToImplicit G) = totalH G := totalH_hToImplicit' G hwf ht hv
+
+/-- Non-vacuity: CH₃–H with the fourth hydrogen explicit, next to H₂: the guard holds, the explicit
+hydrogen is really folded in (node 5 disappears), H₂ stays, and the count is 6 before and after. -/
+example :
+    let G : LGraph := { nodes := [(1, [("element", .str "C"), ("hcount", .num 6)]),
+                                  (5, [("element", .str "H"), ("hcount", .num 0)]),
+                                  (6, [("element", .str "H"), ("hcount", .num 0)]),
+                                  (7, [("element", .str "H"), ("hcount", .num 0)])],
+                        edges := [(1, 5, [("order", .num 2)]), (6, 7, [("order", .num 2)])] }
+    G.WF ∧ HTyped G ∧ HValence G ∧ (hToImplicit G).ids = [1, 6, 7] ∧ totalH G = 6 ∧ totalH (hToImplicit G) = 6 := by
+  decide
 
 /-- The first half of the guard is literally `has_XH`: it is false iff every bond joins two
 hydrogens or two heavy atoms. -/
@@ -111,7 +142,8 @@ theorem label_roundtrip (e : List Char) (c : Int) (he : alpha e) : parseLabel (r
 theorem orderLabel_roundtrip (h : Int) (hh : h = 2 ∨ h = 3 ∨ h = 4 ∨ h = 6) :
     labelOrder (orderLabel (.num h)) = .num h := orderLabel_roundtrip' h hh
 
-/-- **C10, ITS → GML → ITS — partial (token level).**  For an ITS graph of the shape
+/-- **C10, ITS → GML → ITS — partial (token level)** (kept for the record; the full statements are
+`gml_roundtrip` and `gml_roundtrip_reindexed` below).  For an ITS graph of the shape
 `ITSGraph` / `get_rc` produce, exported in full with ids kept, the written rule contains
 everything the property names, in a form the reader's own label functions invert:
 
@@ -162,13 +194,90 @@ centre. -/
 theorem gml_two_ways_full_is_centre (I : LGraph) (ri : Bool) :
     itsToGml true ri I = itsToGml false ri (getRc I) := rfl
 
-/-- **C10, two routes (centre supplied) — partial.**  Supplying the centre instead of the full
+/-- **C10, two routes (centre supplied) — partial** (kept for the record; `gml_two_ways_centre` below
+has no hypothesis).  Supplying the centre instead of the full
 ITS gives identical tokens *provided* extracting the centre of a centre changes nothing.
 Missing: `getRc (getRc I) = getRc I` itself (idempotence of `get_rc`, the subject of C02); it
 is exercised by correspondence stream (d) on every corpus reaction and renumbering. -/
 theorem gml_two_ways_centre_partial (I : LGraph) (ri : Bool) (hidem : getRc (getRc I) = getRc I) :
     itsToGml true ri (getRc I) = itsToGml true ri I := by
   simp only [itsToGml, if_true, hidem]
+
+/-- **`get_rc` is idempotent** (the `get_rc` the GML entry points call, default options): extracting
+the centre of a centre gives back *the same graph* — same nodes in the same order with the same
+attribute dicts, same edges — for every input graph (no well-formedness needed). -/
+theorem getRc_idem (I : LGraph) : getRc (getRc I) = getRc I := getRc_idem' I
+
+/-- **C10, two routes (centre supplied).**  Supplying the centre instead of the full ITS gives
+identical tokens, with or without re-indexing (ninth clause of `C10.FullStatement`). -/
+theorem gml_two_ways_centre (I : LGraph) (ri : Bool) : itsToGml true ri (getRc I) = itsToGml true ri I :=
+  gml_two_ways_centre_partial I ri (getRc_idem I)
+
+/-- **C10, ITS → GML → ITS** (sixth clause of `C10.FullStatement`), core and full export, ids kept.
+The graph the reader assembles from the written rule — sequential `add_node` / `add_edge` per
+section, `_synchronize_nodes_and_edges`, `ITSGraph` — is the same rule as the exported graph (the
+centre, for `core=True`): same atoms, same (element, charge) before and after on every atom, same
+(before, after) order pair on every pair of atoms. -/
+theorem gml_roundtrip (I : LGraph) (core : Bool) (hs : ItsShape (if core then getRc I else I)) :
+    RuleEq (gmlToIts (itsToGml core false I)) (if core then getRc I else I) := by
+  cases core with
+  | false => exact gml_roundtrip_full' I hs
+  | true => exact gml_roundtrip_full' (getRc I) hs
+
+/-- **C10, ITS → GML → ITS, re-indexed** (seventh clause of `C10.FullStatement`).  With
+`reindex=True` the re-imported graph is the exported one up to the re-indexing bijection: their
+view graphs (node label = (element, charge) before/after, edge label = order pair) are isomorphic. -/
+theorem gml_roundtrip_reindexed (I : LGraph) (core : Bool) (hs : ItsShape (if core then getRc I else I)) :
+    ∃ m, Match.IsIso ⟨["v"], ["o"], false⟩ (viewGraph (if core then getRc I else I))
+      (viewGraph (gmlToIts (itsToGml core true I))) m := by
+  have key : ∀ I : LGraph, ItsShape I →
+      ∃ m, Match.IsIso viewSel (viewGraph I) (viewGraph (gmlToIts (itsToGml false true I))) m := by
+    intro I hs
+    have hf := injOn_indexMap I hs
+    rw [itsToGml_reindex I hs]
+    exact isIso_of_ruleEq_relabel I _ hs.1 _ hf
+      (gml_roundtrip_full' _ (itsShape_relabel I hs _ hf)) (closed_gmlToIts _)
+      (fun e he a ha => construct_order_consistent _ _ e he a ha)
+  cases core with
+  | false => exact key I hs
+  | true => exact key (getRc I) hs
+
+/-- **C10, reaction string → GML → ITS.**  The rule `smart_to_gml` writes from the two molecule
+graphs of a reaction (full export, ids kept) reads back as the ITS graph of these two graphs. -/
+theorem gml_smart_roundtrip (r p : LGraph) (hr : MolShape r) (hp : MolShape p) (hid : r.ids = p.ids)
+    (hs : ItsShape (construct r p)) : RuleEq (gmlToIts (smartToGml false false r p)) (construct r p) :=
+  smart_roundtrip' r p hr hp hid hs
+
+/-- **C10, two routes (full export).**  For the two molecule graphs `rsmi_to_graph` delivers
+(`MolShape`: a NetworkX graph, every atom with an element and an integer charge, every bond with a
+standard order; same atoms on both sides), the rule written from the reaction string and the rule
+written from the ITS graph of the same two graphs — both in full, with or without re-indexing —
+read back as isomorphic rules.  (The tokens themselves differ: the `right` section lists the
+product's bonds in the product's own order and orientation on one route, in ITS order on the
+other.)  `MolShape` cannot be dropped: `C10.last_clause_needs_molShape`. -/
+theorem gml_two_ways_full (r p : LGraph) (ri : Bool) (hr : MolShape r) (hp : MolShape p) (hid : r.ids = p.ids)
+    (hs : ItsShape (construct r p)) :
+    ∃ m, Match.IsIso ⟨["v"], ["o"], false⟩ (viewGraph (gmlToIts (smartToGml false ri r p)))
+      (viewGraph (gmlToIts (itsToGml false ri (construct r p)))) m :=
+  two_ways_full' r p ri hr hp hid hs
+
+/-- Non-vacuity for `gml_roundtrip*` / `gml_two_ways_full`: a C–O bond that becomes a double bond
+while O loses its charge.  The two molecule graphs have the required shape, so has their ITS, its
+centre is non-trivial, and the two routes really write different token lists (`right` section). -/
+example :
+    let r : LGraph := { nodes := [(1, [("element", .str "C"), ("charge", .num 0)]),
+                                  (2, [("element", .str "O"), ("charge", .num (-2))]),
+                                  (3, [("element", .str "N"), ("charge", .num 0)])],
+                        edges := [(1, 2, [("order", .num 2)]), (1, 3, [("order", .num 2)])] }
+    let p : LGraph := { nodes := [(1, [("element", .str "C"), ("charge", .num 0)]),
+                                  (2, [("element", .str "O"), ("charge", .num 0)]),
+                                  (3, [("element", .str "N"), ("charge", .num 0)])],
+                        edges := [(3, 1, [("order", .num 2)]), (2, 1, [("order", .num 4)])] }
+    MolShape r ∧ MolShape p ∧ r.ids = p.ids ∧ ItsShape (construct r p) ∧ ItsShape (getRc (construct r p)) ∧
+    (getRc (construct r p)).ids = [1, 2] ∧
+    smartToGml false false r p ≠ itsToGml false false (construct r p) ∧
+    ruleEqb (gmlToIts (smartToGml false true r p)) (gmlToIts (itsToGml false true (construct r p))) = true := by
+  decide
 
 /-- Non-vacuity: a two-atom centre (C–O bond formed, O loses its charge) has the required shape,
 its element strings satisfy `alpha`, and the written rule has the expected tokens. -/
@@ -189,4 +298,78 @@ example :
 example : alpha "Cl".toList ∧ parseLabel (render "Mg".toList 12) = ("Mg".toList, 12) := by decide
 
 end Gml
+open SynKit.Repr SynKit.Gml in
+/-- The first nine conjuncts of `C10.FullStatement`, all proved. -/
+theorem C10.clauses_1_to_9 :
+    (∀ M : Mol, M.WF → graphToMol (molToGraph M) = .ok M.out) ∧
+    (∀ G : LGraph, G.WF → HTyped G → NoHeavyBoundH G → hToImplicit (hToExplicit G) = G) ∧
+    (∀ G : LGraph, totalH (hToExplicit G) = totalH G) ∧
+    (∀ G : LGraph, G.WF → HTyped G → HValence G → totalH (hToImplicit G) = totalH G) ∧
+    (∀ e c, alpha e → parseLabel (render e c) = (e, c)) ∧
+    (∀ (I : LGraph) (core : Bool), ItsShape (if core then getRc I else I) →
+        RuleEq (gmlToIts (itsToGml core false I)) (if core then getRc I else I)) ∧
+    (∀ (I : LGraph) (core : Bool), ItsShape (if core then getRc I else I) →
+        ∃ m, Match.IsIso ⟨["v"], ["o"], false⟩ (viewGraph (if core then getRc I else I))
+          (viewGraph (gmlToIts (itsToGml core true I))) m) ∧
+    (∀ (r p : LGraph) (ri : Bool), smartToGml true ri r p = itsToGml true ri (construct r p)) ∧
+    (∀ (I : LGraph) (ri : Bool), itsToGml true ri (getRc I) = itsToGml true ri I) :=
+  ⟨Repr.graphToMol_molToGraph, Repr.hToImplicit_hToExplicit, Repr.totalH_hToExplicit, Repr.totalH_hToImplicit,
+    fun e c he => Gml.label_roundtrip e c he, Gml.gml_roundtrip, Gml.gml_roundtrip_reindexed,
+    Gml.gml_two_ways_core, Gml.gml_two_ways_centre⟩
+
+open SynKit.Gml in
+/-- The last conjunct of `C10.FullStatement` is false as written: the reactant C–O with a single
+bond and the product C–O whose bond carries no `order` attribute satisfy its hypotheses (their ITS
+has the required shape because `ITSGraph` reads the missing order as 0), but `smart_to_gml` writes
+the product bond with the writer's default label `-` (order 1) whereas the ITS route drops it, so
+the re-imported rules have order pairs (1, 1) and (1, 0) on that bond.  `rsmi_to_graph` never
+produces such a bond; `gml_two_ways_full` assumes `MolShape` for that reason. -/
+theorem C10.last_clause_needs_molShape :
+    ¬ (∀ (r p : LGraph) (ri : Bool), ItsShape (construct r p) → r.ids = p.ids →
+        ∃ m, Match.IsIso ⟨["v"], ["o"], false⟩ (viewGraph (gmlToIts (smartToGml false ri r p)))
+          (viewGraph (gmlToIts (itsToGml false ri (construct r p)))) m) := by
+  intro hall
+  let r : LGraph := { nodes := [(1, [("element", .str "C"), ("charge", .num 0)]), (2, [("element", .str "O"), ("charge", .num 0)])],
+                      edges := [(1, 2, [("order", .num 2)])] }
+  let p : LGraph := { nodes := [(1, [("element", .str "C"), ("charge", .num 0)]), (2, [("element", .str "O"), ("charge", .num 0)])],
+                      edges := [(1, 2, [])] }
+  have hH : (viewGraph (gmlToIts (smartToGml false false r p))).edges = [(1, 2, [("o", .tup [.num 2, .num 2])])] := by
+    decide
+  have hP : (1, 2, [("o", Val.tup [.num 2, .num 0])]) ∈
+      (viewGraph (gmlToIts (itsToGml false false (construct r p)))).edges := by decide
+  obtain ⟨m, ⟨⟨_, _, _, hedge⟩, _⟩, _⟩ := hall r p false (by decide) (by decide)
+  obtain ⟨hu, hv, ea, _, _, h3, h4⟩ := hedge _ hP
+  obtain ⟨e, he, rfl, _⟩ := Match.edge?_some_mem _ _ _ _ h3
+  rw [hH] at he
+  simp only [List.mem_singleton] at he
+  subst he
+  revert h4
+  decide
+
+open SynKit.Repr SynKit.Gml in
+/-- C10 at full strength over the model, with the last clause stated for the graphs
+`rsmi_to_graph` delivers. -/
+def C10.FullStatementMol : Prop :=
+  (∀ M : Mol, M.WF → graphToMol (molToGraph M) = .ok M.out) ∧
+  (∀ G : LGraph, G.WF → HTyped G → NoHeavyBoundH G → hToImplicit (hToExplicit G) = G) ∧
+  (∀ G : LGraph, totalH (hToExplicit G) = totalH G) ∧
+  (∀ G : LGraph, G.WF → HTyped G → HValence G → totalH (hToImplicit G) = totalH G) ∧
+  (∀ e c, alpha e → parseLabel (render e c) = (e, c)) ∧
+  (∀ (I : LGraph) (core : Bool), ItsShape (if core then getRc I else I) →
+      RuleEq (gmlToIts (itsToGml core false I)) (if core then getRc I else I)) ∧
+  (∀ (I : LGraph) (core : Bool), ItsShape (if core then getRc I else I) →
+      ∃ m, Match.IsIso ⟨["v"], ["o"], false⟩ (viewGraph (if core then getRc I else I))
+        (viewGraph (gmlToIts (itsToGml core true I))) m) ∧
+  (∀ (r p : LGraph) (ri : Bool), smartToGml true ri r p = itsToGml true ri (construct r p)) ∧
+  (∀ (I : LGraph) (ri : Bool), itsToGml true ri (getRc I) = itsToGml true ri I) ∧
+  (∀ (r p : LGraph) (ri : Bool), MolShape r → MolShape p → r.ids = p.ids → ItsShape (construct r p) →
+      ∃ m, Match.IsIso ⟨["v"], ["o"], false⟩ (viewGraph (gmlToIts (smartToGml false ri r p)))
+        (viewGraph (gmlToIts (itsToGml false ri (construct r p)))) m)
+
+/-- **C10, every clause.** -/
+theorem C10.fullStatementMol : C10.FullStatementMol :=
+  ⟨Repr.graphToMol_molToGraph, Repr.hToImplicit_hToExplicit, Repr.totalH_hToExplicit, Repr.totalH_hToImplicit,
+    fun e c he => Gml.label_roundtrip e c he, Gml.gml_roundtrip, Gml.gml_roundtrip_reindexed,
+    Gml.gml_two_ways_core, Gml.gml_two_ways_centre, Gml.gml_two_ways_full⟩
+
 end SynKit
